@@ -5,7 +5,7 @@ from fractions import Fraction
 
 from ..model import AnalysisError, src
 from ..paths import walk_no_defs
-from ..absint import (Interp, Const, Sym, Err, Atom, Top, Func, ListV, Obj, Aff, Raised, Unmodelled, Exc, k)
+from ..absint import (Interp, Const, Sym, Err, Atom, Top, Func, ListV, Obj, Aff, AffCmp, Raised, Unmodelled, Exc, k)
 from .. import abshelp as H, ctx as ctxmod, purity, guards, sa
 from . import c01
 from .c01 import error_singletons
@@ -170,64 +170,103 @@ def _big_constants(f, consts):
     return out
 
 
-def _r3(model, res):
+def _int_range(iv):
+    """Integer range [a, b] (None = unbounded) of a rational interval with open/closed ends."""
+    import math
+    a = b = None
+    if iv.lo is not None:
+        a = math.ceil(iv.lo) if iv.lc else math.floor(iv.lo) + 1
+    if iv.hi is not None:
+        b = math.floor(iv.hi) if iv.hc else math.ceil(iv.hi) - 1
+    return a, b
+
+
+def _overlap(a, b, c, d):
+    lo = c if a is None else (a if c is None else max(a, c))
+    hi = d if b is None else (b if d is None else min(b, d))
+    if lo is not None and hi is not None and lo > hi:
+        return None
+    return lo, hi
+
+
+def _piecewise(model, res, name, var, make_args, flags, spec, where_fn, describe):
+    """Run ``name`` with an integer variable ``var``; every trace is a piece (integer range of var from its affine decisions ->
+    outcome).  ``spec``: list of (lo, hi, judge(outcome) -> bool, text).  Each piece must satisfy the spec range(s) it meets."""
+    from .c13 import pieces_of, Iv
+    m, f = where_fn
+    try:
+        outs = H.run_function(model, H.registry_func(model, name), make_args, flags=flags)
+    except Unmodelled as e:
+        res.ob('R3', name, describe, True, 'undecided: %s' % e)
+        return 0
     n = 0
-    for name in ('HEX2DEC', 'DEC2HEX', 'DECIMAL'):
-        m, f = model.registered(name)
-        consts = guards.module_consts(m)
-        seen = set()
-        for node, v in _big_constants(f, consts):
-            par = m.parent(node)
-            if isinstance(par, ast.UnaryOp):
-                continue        # counted at the UnaryOp
-            if id(node) in seen:
+    for iv, o in pieces_of([o for o in outs if not o.imprecise], Iv(None, False, None, False)):
+        if getattr(o, '_nonaffine', False) and not any(isinstance(s_, AffCmp) for (t_, a_, s_) in o.notes):
+            continue        # a trace that never looked at the variable (e.g. the text did not parse)
+        a, b = _int_range(iv)
+        if a is not None and b is not None and a > b:
+            continue
+        for lo, hi, judge, text in spec:
+            ov = _overlap(a, b, lo, hi)
+            if ov is None:
                 continue
-            seen.add(id(node))
             n += 1
-            role = None
-            p = par
-            while p is not None and not isinstance(p, (ast.Compare, ast.BinOp, ast.stmt)):
-                p = m.parent(p)
-            if isinstance(p, ast.Compare):
-                role = 'threshold'
-                ok = abs(v) in (P39, P40)
-            elif isinstance(p, ast.BinOp) and isinstance(p.op, (ast.Add, ast.Sub)):
-                role = 'modulus'
-                ok = v == P40
-            else:
-                role = 'other'
-                ok = abs(v) in (P39, P40)
-            res.ob('R3', name, {'constant': v, 'role': role, 'context': src(p)[:60] if p is not None else ''}, ok)
+            ok = judge(o)
+            rng = '[%s, %s]' % ('-inf' if ov[0] is None else ov[0], '+inf' if ov[1] is None else ov[1])
+            res.ob('R3', name, {'%s in' % var: rng, 'expected': text}, ok, '%s %r' % (o.kind, o.value))
             if not ok:
-                res.violation('R3', 'function:%s:constant:%s' % (name, role), m.where(node),
-                              '%s uses the constant %d as %s; the 40-bit two\'s-complement scheme uses 2^39 = %d as threshold and 2^40 = %d as modulus'
-                              % (name, v, role, P39, P40), func=f.name)
-    res.floor("two's-complement constants", n, 5)
-    # the negative branch: value >= 2^39 -> value - 2^40  (same shape in HEX2DEC and DECIMAL)
-    for name in ('HEX2DEC', 'DECIMAL'):
-        m, f = model.registered(name)
-        consts = guards.module_consts(m)
-        okshape = False
-        for node in walk_no_defs(f):
-            if isinstance(node, ast.IfExp) and isinstance(node.test, ast.Compare) and len(node.test.ops) == 1:
-                t = node.test
-                cv = guards.const_number(t.comparators[0], consts)
-                if isinstance(t.ops[0], ast.GtE) and cv == P39 and isinstance(node.body, ast.BinOp) and isinstance(node.body.op, ast.Sub) and \
-                        guards.const_number(node.body.right, consts) == P40 and src(node.body.left) == src(t.left) == src(node.orelse):
-                    okshape = True
-            if isinstance(node, ast.If) and isinstance(node.test, ast.Compare) and len(node.test.ops) == 1:
-                t = node.test
-                cv = guards.const_number(t.comparators[0], consts)
-                if isinstance(t.ops[0], ast.GtE) and cv == P39:
-                    for st in node.body:
-                        for x in ast.walk(st):
-                            if isinstance(x, (ast.BinOp, ast.AugAssign)) and isinstance(x.op, ast.Sub) and \
-                                    guards.const_number(x.right if isinstance(x, ast.BinOp) else x.value, consts) == P40:
-                                okshape = True
-        res.ob('R3', name, 'values >= 2^39 are mapped to value - 2^40', okshape)
-        if not okshape:
-            res.violation('R3', 'function:%s:twos-complement-shape' % name, m.where(f),
-                          '%s must map a parsed value v >= 2^39 to v - 2^40 (and leave smaller values)' % name, func=f.name)
+                wit = ov[0] if ov[0] is not None else ov[1]
+                res.violation('R3', 'function:%s:%s' % (name, text.split(' ')[0]), m.where(f),
+                              '%s: for %s in %s (e.g. %s = %s) the result must be %s; the code gives %s %r'
+                              % (name, var, rng, var, wit, text, o.kind, o.value), case={var: rng}, func=f.name)
+    return n
+
+
+def _r3(model, res):
+    """40-bit two's complement, decided on the piecewise-affine function the code computes (constants may be written in any way)."""
+    def is_err(o):
+        return (o.kind == 'return' and o.value.tag == 'err') or o.kind == 'raise'
+
+    def is_aff(coeffs, const):
+        def j(o):
+            v = o.value
+            if o.kind != 'return':
+                return False
+            if isinstance(v, Const):
+                return not coeffs and v.value == const
+            return isinstance(v, Aff) and dict((a, int(b)) for a, b in v.coeffs.items()) == coeffs and v.const == const
+        return j
+    n = 0
+    spec_hex = [(None, -1, is_err, 'error (negative)'), (0, P39 - 1, is_aff({'v': 1}, 0), 'value (v itself below 2^39)'),
+                (P39, P40 - 1, is_aff({'v': 1}, -P40), 'complement (v - 2^40 from 2^39 on)'), (P40, None, is_err, 'error (beyond 40 bits)')]
+    n += _piecewise(model, res, 'HEX2DEC', 'v', lambda: [Sym('str', 'H')], {'radix_parse_symbol': 'v'}, spec_hex,
+                    model.registered('HEX2DEC'), 'parsed value -> result')
+    # DECIMAL has no sign convention: DECIMAL(BASE(n, r), r) = n for every n >= 0
+    spec_dec = [(0, None, is_aff({'v': 1}, 0), 'value (the parsed number itself)')]
+    n += _piecewise(model, res, 'DECIMAL', 'v', lambda: [Sym('str', 'T'), Sym('int', 'B')], {'radix_parse_symbol': 'v'}, spec_dec,
+                    model.registered('DECIMAL'), 'parsed value -> result')
+
+    # DEC2HEX: n in [-2^39, 2^39) is rendered from n (n >= 0) or n + 2^40 (n < 0); everything else is an error
+    def hex_of(coeffs, const):
+        def j(o):
+            if o.kind != 'return':
+                return False
+            found = []
+
+            def go(v):
+                if isinstance(v, Atom):
+                    if v.op == 'hex' and len(v.args) == 1:
+                        found.append(v.args[0])
+                    for a in v.args:
+                        go(a)
+            go(o.value)
+            return len(found) >= 1 and all(isinstance(x, Aff) and dict((a, int(b)) for a, b in x.coeffs.items()) == coeffs and x.const == const
+                                           for x in found)
+        return j
+    spec_d2h = [(None, -P39 - 1, is_err, 'error (below -2^39)'), (-P39, -1, hex_of({'n': 1}, P40), 'digits-of-n+2^40 (negative numbers as 40-bit two\'s complement)'),
+                (0, P39 - 1, hex_of({'n': 1}, 0), 'digits-of-n'), (P39, None, is_err, 'error (2^39 and beyond)')]
+    n += _piecewise(model, res, 'DEC2HEX', 'n', lambda: [Aff(1, 0, 'int', 'n')], {}, spec_d2h, model.registered('DEC2HEX'), 'number -> digits')
+    res.soft_floor("two's-complement pieces examined", n, 8)
 
 
 def _r4(model, res):
@@ -402,3 +441,28 @@ def _r7(model, res, E):
         if o.kind == 'return' and isinstance(o.value, Atom):
             pass
     res.soft_floor('HEX2DEC traces', n, 2)
+    # DECIMAL: the digits go unchanged into int(., radix)
+    m, f = model.registered('DECIMAL')
+    outs = H.run_function(model, H.registry_func(model, 'DECIMAL'), lambda: [Sym('str', 'T'), Sym('int', 'B')])
+    n = 0
+
+    def radix_parses(v, acc):
+        if isinstance(v, Atom):
+            if v.op == 'int' and len(v.args) == 2:
+                acc.append(v)
+            for a in v.args:
+                radix_parses(a, acc)
+        return acc
+    for o in outs:
+        if o.imprecise or o.kind != 'return' or o.value.tag == 'err':
+            continue
+        n += 1
+        ps = radix_parses(o.value, [])
+        ok = bool(ps) and all(isinstance(p_.args[0], Sym) and p_.args[0].name == 'T' and getattr(p_.args[1], 'name', None) == 'B' for p_ in ps)
+        res.ob('R7', 'DECIMAL', {'result': repr(o.value)[:80]}, ok)
+        if not ok:
+            res.violation('R7', 'function:DECIMAL:parse', m.where(f),
+                          'DECIMAL must hand its text argument unchanged to int(text, radix); a trace returns %r - digit strings that also look '
+                          'like a number in another notation (e.g. "1E5" in radix 16) are then read as that number and the round trip with BASE breaks'
+                          % (o.value,), func=f.name)
+    res.soft_floor('DECIMAL traces', n, 1)
